@@ -440,6 +440,9 @@ func c09Apply(st *c09State, mu MutC09) string {
 			u := scte35.CreateUPID()
 			u.SetUPIDType(scte35.SegUPIDType(byte(i + 1)))
 			u.SetUPID(st.window(mu.Data))
+			if mu.B {
+				u = c09WrappedUPID{inner: u} // the setter takes the interface: any implementation must do
+			}
 			ms = append(ms, u)
 			md.MID = append(md.MID, ref.SegUPID{Type: byte(i + 1), Body: clone(mu.Data)})
 		}
@@ -453,6 +456,9 @@ func c09Apply(st *c09State, mu MutC09) string {
 			co.SetComponentTag(byte(0x40 + i))
 			off := (mu.V >> 8) & m33
 			co.SetPTSOffset(gots.PTS(off))
+			if mu.B {
+				co = c09WrappedComp{ComponentOffset: co}
+			}
 			cs = append(cs, co)
 			md.Comps = append(md.Comps, ref.SegOffset{Tag: byte(0x40 + i), Offset: off})
 		}
@@ -482,6 +488,16 @@ func c09Apply(st *c09State, mu MutC09) string {
 	}
 	return fmt.Sprintf("descriptor[%d].set#%d(%v,%#x)", mu.K, mu.Kind, mu.B, mu.V)
 }
+
+// decorators: other implementations of the interfaces the list setters accept
+type c09WrappedUPID struct{ inner scte35.UPID }
+
+func (w c09WrappedUPID) UPIDType() scte35.SegUPIDType     { return w.inner.UPIDType() }
+func (w c09WrappedUPID) UPID() []byte                     { return w.inner.UPID() }
+func (w c09WrappedUPID) SetUPIDType(v scte35.SegUPIDType) { w.inner.SetUPIDType(v) }
+func (w c09WrappedUPID) SetUPID(v []byte)                 { w.inner.SetUPID(v) }
+
+type c09WrappedComp struct{ scte35.ComponentOffset }
 
 // c09Permute applies the same reordering to a list of library objects and to
 // the model's list: 0 reverse, 1 rotate left by one, 2 the first element once more in front.
